@@ -11,6 +11,11 @@ def gen_ops(rng, proto, nops, with_timeout):
     ops, ncall = [], 0
     closed = False
     for _ in range(nops):
+        if rng.random() < 0.12:
+            # set_timeout / reset_timeout on the blocking context (the async caller wraps its calls accordingly)
+            with_timeout = rng.random() < 0.7
+            ops.append("timeout %s" % (rng.choice(["200", "250", "300"]) if with_timeout else "-"))
+            continue
         if rng.random() < 0.15:
             cur = rng.randrange(256)
             ops.append("slave %d" % cur)
@@ -65,8 +70,8 @@ class PROP(Prop):
     profiles = ["debug"]
     shard_min = 1
     kernel_sample = 16
-    rule = ("random operation sequences over the 13 operations (generic call, five typed reads, five typed writes, slave selection, connect with and "
-            "without explicit slave) against a scripted peer (reply / exception / mismatching reply / silence under a timeout / close), executed with "
+    rule = ("random operation sequences over the 13 operations (generic call, five typed reads, five typed writes, slave selection, set_timeout / reset_timeout, connect with and "
+            "without explicit slave / timeout) against a scripted peer (reply / exception / mismatching reply / silence under a timeout / close), executed with "
             "the real synchronous client AND the real asynchronous client over loopback TCP and over a pseudo-terminal (RTU); both compared with "
             "each other and with the model's prediction, on the frames the peer received and on every result.  non-trivial = sequence with >= 2 "
             "operations")
